@@ -15,7 +15,10 @@ with the model INSIDE Coq (checkers of coq/C17/Check.v, vm_compute).
 Oracle (tests, tolerance): dense / sparse / LinearOperator x numpy / scipy / lobpcg / auto x k x which x
 sigma x generalized B, sizes on both sides of the backend thresholds: residuals, (B-)orthonormality,
 sortedness, selection vs a dense reference; svds triplets, rsvd, estimate_rank; expm / expm_multiply /
-sqrtm / norm defining equations; autoblock spectrum == direct spectrum.
+sqrtm / norm defining equations; autoblock spectrum == direct spectrum; the `P=` subspace projector
+(real and complex isometries, every backend) against the dense spectrum of P^dag A P; the remaining
+optional arguments (sort=False, ncv / tol / maxiter, eigenvector-only aliases, Lazy with prefactors for
+A and B, non-hermitian aliases, fallback_to_scipy, svds / norm / eigh_window keyword pass-through).
 """
 
 import json
@@ -1321,6 +1324,279 @@ def spectral_oracle(ctx):
             ctx.violation("lazy_ptr_linop:raised", f"raised {type(e).__name__}: {str(e)[:120]}", desc)
 
 
+def _rand_iso(g, d, m, cplx):
+    """tall d x m matrix with orthonormal columns (Q of a QR; complex ones carry generic phases)"""
+    X = g.normal(size=(d, m))
+    if cplx:
+        X = X + 1j * g.normal(size=(d, m))
+    Q, _ = np.linalg.qr(X)
+    return Q
+
+
+def projector_oracle(ctx):
+    """the `P=` argument: eigensolve restricted to the subspace spanned by the columns of an isometry P.  Returned
+    values must be eigenvalues of P^dag A P (dense reference) selected by the rule, returned vectors live in the full
+    space, are orthonormal, lie in range(P) and satisfy the projected eigen-equation P^dag A v = lambda P^dag v."""
+    import quimb as qu
+    from scipy.sparse.linalg import ArpackNoConvergence
+
+    rng = ctx.rng
+    g = np.random.default_rng(ctx.seed + 1706)
+    _seed_libs(ctx.seed + 1706)
+    for it in range(ctx.n(220, 2200)):
+        k = rng.choice([1, 1, 2, 3])
+        backend = rng.choice(["numpy", "scipy", "scipy", "lobpcg", None, "auto"])
+        with_sigma = backend != "lobpcg" and rng.random() < 0.25
+        d0 = math.isqrt((10000 if with_sigma else 2000) * k)
+        d = d0 + rng.choice([-1, 0, 1]) if (rng.random() < 0.35 and d0 < 110) else rng.randint(5 * k + 6, 48)
+        m = rng.randint(5 * k + 3, d - 1)
+        a_cplx = rng.random() < 0.5
+        p_cplx = rng.random() < 0.6
+        arep = rng.choice(["dense", "sparse", "linop", "qarray"])
+        if backend == "numpy" and arep == "linop":
+            arep = "dense"
+        prep = rng.choice(["dense", "dense", "sparse", "qarray", "lazy"])
+        A = _rand_herm(g, d, a_cplx)
+        P = _rand_iso(g, d, m, p_cplx)
+        M = P.conj().T @ A @ P
+        M = (M + M.conj().T) / 2
+        allv = np.linalg.eigvalsh(M)
+        if backend == "lobpcg":
+            which = rng.choice(["SA", "LA", None])
+        elif with_sigma:
+            which = rng.choice([None, "TR"])
+        else:
+            which = rng.choice(["SA", "LA", "LM", None])
+        sigma = None
+        if with_sigma:
+            j = rng.randrange(m)
+            sigma = float(allv[j] + 0.3 * (allv[min(j + 1, m - 1)] - allv[j]) + 1e-3)
+        eff = which if which is not None else ("TR" if sigma is not None else "SA")
+        rv = rng.random() < 0.75
+        entry = rng.choice(["eigensystem_partial", "eigh/eigvalsh"])
+        opts = {"maxiter": 400, "tol": 1e-10} if backend == "lobpcg" else {}
+        v0kind = None
+        if backend in ("lobpcg", "scipy") and rng.random() < 0.25:
+            # lobpcg documents that a full-space guess is projected too; scipy gets a guess in the subspace
+            v0kind = rng.choice(["full", "subspace"]) if backend == "lobpcg" else "subspace"
+            n0 = d if v0kind == "full" else m
+            v0 = g.normal(size=n0) + (1j * g.normal(size=n0) if (a_cplx or p_cplx) else 0)
+            opts["v0"] = v0 if backend == "scipy" else v0.reshape(-1, 1)
+            if backend == "lobpcg" and k > 1:
+                opts["v0"] = np.hstack([opts["v0"], g.normal(size=(n0, k - 1)) + (1j * g.normal(size=(n0, k - 1)) if (a_cplx or p_cplx) else 0)])
+        auto_numpy = backend in (None, "auto") and arep != "linop" and d * d / k < (10000 if with_sigma else 2000)
+        tag = backend if backend not in (None, "auto") else ("auto->numpy" if auto_numpy else "auto->scipy")
+        key = f"projector:{tag}:P_{'complex' if p_cplx else 'real'}"
+        desc = {"call": entry, "d": d, "m": m, "k": k, "backend": backend, "A": arep, "A_complex": a_cplx, "P": prep, "P_complex": p_cplx,
+                "which": which, "sigma": sigma, "return_vecs": rv, "v0": v0kind, "np_seed": ctx.seed + 1706, "iteration": it}
+        ctx.count(("projector", it), p_cplx)
+        ctx.bump("oracle:" + key)
+        try:
+            if entry == "eigensystem_partial":
+                out = qu.eigensystem_partial(_as_rep(A, arep), k, isherm=True, P=_as_rep(P, prep), which=which, sigma=sigma,
+                                             return_vecs=rv, backend=backend, **opts)
+            else:
+                fn = qu.eigh if rv else qu.eigvalsh
+                out = fn(_as_rep(A, arep), k=k, P=_as_rep(P, prep), which=which, sigma=sigma, backend=backend, **opts)
+        except ArpackNoConvergence:
+            ctx.bump("oracle:arpack_no_convergence")
+            continue
+        except Exception as e:  # noqa: BLE001
+            ctx.violation(key + ":raised", f"valid call with P= raised {type(e).__name__}: {str(e)[:120]}", {**desc, "error": str(e)[:200]})
+            continue
+        lk, vk = out if rv else (out, None)
+        lk = np.asarray(lk)
+        lob = backend == "lobpcg"
+        if np.iscomplexobj(lk) and np.abs(lk.imag).max() > 1e-8:
+            ctx.violation(key + ":complex_eigenvalue", "hermitian problem in a subspace returned a complex eigenvalue", desc)
+            continue
+        if not oracle_selection(ctx, key, desc, allv, lk.real, eff, sigma, k, tol=1e-3 if lob else 1e-7):
+            continue
+        if np.any(np.diff(lk.real) < -1e-7 * max(1.0, float(np.abs(lk).max()))):
+            ctx.violation(key + ":not_sorted", "eigenvalues are not ascending (sort=True is the default)", desc)
+        if vk is not None:
+            vk = np.asarray(vk)
+            if vk.shape != (d, k):
+                ctx.violation(key + ":shape", f"eigenvectors have shape {vk.shape}, expected full-space {(d, k)}", desc)
+                continue
+            scale = max(1.0, float(np.abs(A).max())) * d
+            gd = float(np.abs(vk.conj().T @ vk - np.eye(k)).max())
+            res = float(np.abs(P.conj().T @ (A @ vk) - (P.conj().T @ vk) * lk.real[None, :]).max())
+            out_of = float(np.abs(P @ (P.conj().T @ vk) - vk).max())
+            if not gd <= (1e-4 if lob else 1e-7):
+                ctx.violation(key + ":orthonormality", f"max |V^dag V - 1| = {gd:.2e}", {**desc, "gram_defect": gd})
+            if not res <= (1e-2 if lob else 1e-7) * scale:
+                ctx.violation(key + ":residual", f"max |P^dag A v - lambda P^dag v| = {res:.2e}", {**desc, "residual": res})
+            if not out_of <= 1e-7:
+                ctx.violation(key + ":outside_subspace", f"returned vectors leave range(P) by {out_of:.2e}", desc)
+
+
+def options_oracle(ctx):
+    """optional arguments the other streams do not reach: sort=False, ncv / tol / maxiter pass-through, the
+    eigenvector-only and ground-state aliases, Lazy operators with a prefactor (A and B), non-hermitian partial solves
+    through every alias, fallback_to_scipy, keyword pass-through of svds / norm / eigh_window."""
+    import quimb as qu
+    import scipy.linalg as sla
+    import scipy.sparse as sp
+    from quimb.linalg.base_linalg import eigenvectors as bl_eigenvectors
+
+    rng = ctx.rng
+    g = np.random.default_rng(ctx.seed + 1707)
+    _seed_libs(ctx.seed + 1707)
+    for it in range(ctx.n(60, 600)):
+        d = rng.choice([43, 44, 45, 46]) if rng.random() < 0.4 else rng.randint(14, 40)
+        k = rng.choice([1, 2, 3])
+        cplx = rng.random() < 0.5
+        A = _rand_herm(g, d, cplx)
+        ev = np.linalg.eigvalsh(A)
+        backend = rng.choice(["numpy", "scipy", "lobpcg", None])
+        lob = backend == "lobpcg"
+        base = {"maxiter": 400, "tol": 1e-10} if lob else {}
+        tol = 1e-3 if lob else 1e-7
+        which = rng.choice(["SA", "LA"])
+        desc = {"d": d, "k": k, "complex": cplx, "backend": backend, "which": which, "np_seed": ctx.seed + 1707, "iteration": it}
+        tag = str(backend).lower()
+        ctx.count(("options", it), True)
+        ctx.bump("oracle:options:" + tag)
+        case = "?"
+        try:
+            # sort=False: same values (order is the rule's order only for the dense solver)
+            case = "sort=False"
+            lk = np.asarray(qu.eigvalsh(A, k=k, which=which, sort=False, backend=backend, **base))
+            if oracle_selection(ctx, f"options:{tag}:sort_false", {**desc, "call": "eigvalsh(sort=False)"}, ev, lk, which, None, k, tol=tol) and backend == "numpy":
+                ks = ref_keys(lk, which, None)
+                if np.any(np.diff(ks) < -1e-9):
+                    ctx.violation("options:numpy:sort_false:order", "sort=False: values are not in the rule's order", {**desc, "call": "eigvalsh(sort=False)"})
+            # solver options are passed through (or dropped) without changing the answer
+            case = "ncv/tol/maxiter"
+            o2 = {"ncv": min(d - 1, max(2 * k + 2, 20)), "tol": 1e-10, "maxiter": 2000 if not lob else 400}
+            lk = np.asarray(qu.eigvalsh(A, k=k, which=which, backend=backend, **o2))
+            oracle_selection(ctx, f"options:{tag}:solver_opts", {**desc, "call": "eigvalsh(ncv, tol, maxiter)"}, ev, lk, which, None, k, tol=tol)
+            # eigenvector-only aliases
+            case = "eigvecsh"
+            for nm, V in (("eigvecsh", qu.eigvecsh(A, k=k, which=which, backend=backend, **base)),
+                          ("eigenvectors", bl_eigenvectors(A, isherm=True, k=k, which=which, backend=backend, **base))):
+                V = np.asarray(V)
+                want = ev[:k] if which == "SA" else ev[-k:]
+                rq = np.real(np.einsum("ij,ij->j", V.conj(), A @ V)) if V.shape == (d, k) else None
+                if V.shape != (d, k) or not np.allclose(rq, want, atol=(1e-3 if lob else 1e-7) * max(1.0, float(np.abs(ev).max()))) \
+                        or np.abs(A @ V - V * rq[None, :]).max() > (1e-2 if lob else 1e-7) * d * max(1.0, float(np.abs(A).max())):
+                    ctx.violation(f"options:{tag}:{nm}", f"{nm} does not return the requested eigenvectors", {**desc, "call": nm})
+            case = "groundstate"
+            psi = np.asarray(qu.groundstate(A, backend=backend, **base))
+            e0 = qu.groundenergy(A, backend=backend, **base)
+            if psi.shape != (d, 1) or abs(e0 - ev[0]) > tol * max(1.0, abs(ev[0])) or np.abs(A @ psi - ev[0] * psi).max() > (1e-2 if lob else 1e-7) * d:
+                ctx.violation(f"options:{tag}:groundstate", "groundstate / groundenergy disagree with the dense spectrum", {**desc, "call": "groundstate"})
+            # Lazy operator with prefactors (the constructor must return a fresh array: it is scaled in place)
+            case = "Lazy"
+            f1 = rng.choice([2.0, -1.0, 0.5])
+            Lz = f1 * qu.Lazy(lambda A=A: A.copy(), shape=A.shape)
+            if rng.random() < 0.5:
+                Lz = Lz * 0.5
+                f1 = f1 * 0.5
+            lk = np.asarray(qu.eigvalsh(Lz, k=k, which=which, backend=backend, **base))
+            oracle_selection(ctx, f"options:{tag}:lazy_factor", {**desc, "call": "eigvalsh(factor * Lazy)", "factor": f1}, f1 * ev, lk, which, None, k, tol=tol)
+            if backend in ("numpy", "scipy"):
+                case = "Lazy B"
+                B = _rand_spd(g, d, cplx)
+                gev = sla.eigh(A, B, eigvals_only=True)
+                lk = np.asarray(qu.eigvalsh(A, k=k, which=which, backend=backend, B=qu.Lazy(lambda B=B: B.copy(), shape=B.shape)))
+                oracle_selection(ctx, f"options:{tag}:lazy_B", {**desc, "call": "eigvalsh(B=Lazy)"}, gev, lk, which, None, k, tol=tol)
+        except Exception as e:  # noqa: BLE001
+            ctx.violation(f"options:{tag}:raised", f"valid call ({case}) raised {type(e).__name__}: {str(e)[:120]}", {**desc, "case": case})
+    # non-hermitian partial solves through every alias
+    for it in range(ctx.n(30, 300)):
+        d = rng.choice([44, 45]) if rng.random() < 0.3 else rng.randint(12, 40)
+        k = rng.choice([1, 2, 3])
+        N = g.normal(size=(d, d)) + 1j * g.normal(size=(d, d))
+        en = np.linalg.eigvals(N)
+        backend = rng.choice(["numpy", "scipy", None])
+        which = rng.choice(["LM", "LR", "SR", "LI", "SI"])
+        rep = rng.choice(["dense", "sparse", "linop"]) if backend != "numpy" else rng.choice(["dense", "sparse"])
+        desc = {"d": d, "k": k, "backend": backend, "which": which, "A": rep, "np_seed": ctx.seed + 1707, "iteration": it}
+        tag = str(backend).lower()
+        ctx.count(("options_nonherm", it), True)
+        try:
+            l1 = np.asarray(qu.eigvals(_as_rep(N, rep), k=k, which=which, backend=backend))
+            l2, V = qu.eig(_as_rep(N, rep), k=k, which=which, backend=backend)
+            V2 = np.asarray(qu.eigvecs(_as_rep(N, rep), k=k, which=which, backend=backend))
+            l2, V = np.asarray(l2), np.asarray(V)
+            ok = oracle_selection(ctx, f"options:{tag}:nonherm:eigvals", {**desc, "call": "eigvals(k)"}, en, l1, which, None, k)
+            ok = ok and oracle_selection(ctx, f"options:{tag}:nonherm:eig", {**desc, "call": "eig(k)"}, en, l2, which, None, k)
+            if ok:
+                for nm, W in (("eig", V), ("eigvecs", V2)):
+                    if W.shape != (d, k) or np.abs(N @ W - W * l2[None, :]).max() > 1e-7 * d * max(1.0, float(np.abs(N).max())):
+                        # eigvecs come from an independent solve: match them to the values by Rayleigh quotient
+                        rq = np.einsum("ij,ij->j", W.conj(), N @ W) / np.einsum("ij,ij->j", W.conj(), W) if W.shape == (d, k) else None
+                        if rq is None or np.abs(N @ W - W * rq[None, :]).max() > 1e-7 * d * max(1.0, float(np.abs(N).max())):
+                            ctx.violation(f"options:{tag}:nonherm:{nm}:residual", "returned vectors are not eigenvectors", {**desc, "call": nm})
+        except Exception as e:  # noqa: BLE001
+            from scipy.sparse.linalg import ArpackNoConvergence
+
+            if isinstance(e, ArpackNoConvergence):
+                ctx.bump("oracle:arpack_no_convergence")
+            else:
+                ctx.violation(f"options:{tag}:nonherm:raised", f"valid call raised {type(e).__name__}: {str(e)[:120]}", desc)
+    # fallback_to_scipy: lobpcg cannot do LM -> with the flag scipy answers, without it the error surfaces
+    for it in range(ctx.n(4, 20)):
+        d = rng.randint(20, 46)
+        A = _rand_herm(g, d, rng.random() < 0.5)
+        ev = np.linalg.eigvalsh(A)
+        ctx.count(("options_fallback", it), True)
+        try:
+            with warnings.catch_warnings():
+                warnings.simplefilter("ignore")
+                lk = np.asarray(qu.eigvalsh(A, k=2, which="LM", backend="lobpcg", fallback_to_scipy=True))
+            oracle_selection(ctx, "options:fallback_to_scipy", {"call": "eigvalsh(backend='lobpcg', which='LM', fallback_to_scipy=True)", "d": d}, ev, lk, "LM", None, 2)
+        except Exception as e:  # noqa: BLE001
+            ctx.violation("options:fallback_to_scipy:raised", f"fallback_to_scipy=True still raised {type(e).__name__}", {"d": d})
+        try:
+            qu.eigvalsh(A, k=2, which="LM", backend="lobpcg")
+            ctx.violation("options:no_fallback:accepted", "lobpcg with which='LM' must raise when fallback_to_scipy is off", {"d": d})
+        except Exception:  # noqa: BLE001
+            ctx.bump("oracle:options:lobpcg_LM_rejected")
+    # keyword pass-through: svds(ncv), norm(backend=), eigh_window(backend='scipy')
+    for it in range(ctx.n(20, 200)):
+        m, n = rng.randint(20, 60), rng.randint(20, 60)
+        R = g.normal(size=(m, n)) + (1j * g.normal(size=(m, n)) if rng.random() < 0.5 else 0)
+        sr = np.linalg.svd(R, compute_uv=False)
+        ctx.count(("options_svd", it), True)
+        try:
+            s1 = np.asarray(qu.svds(sp.csr_matrix(R), 2, ncv=14, backend="scipy", return_vecs=False))
+            n1 = qu.norm(R, 2, backend="scipy")
+            n2 = qu.norm(sp.csr_matrix(R), "2", backend="numpy")
+            n3 = qu.norm(sp.csr_matrix(R), "spectral")
+            if not (np.allclose(s1, sr[:2], rtol=1e-7) and abs(n1 - sr[0]) < 1e-7 * sr[0] and abs(n2 - sr[0]) < 1e-7 * sr[0] and abs(n3 - sr[0]) < 1e-7 * sr[0]):
+                ctx.violation("options:svds_norm_kwargs", "svds(ncv=) / norm(backend=) differ from the dense singular values", {"shape": [m, n]})
+        except Exception as e:  # noqa: BLE001
+            ctx.violation("options:svds_norm_kwargs:raised", f"raised {type(e).__name__}: {str(e)[:120]}", {"shape": [m, n]})
+        d = rng.randint(20, 46)
+        A = _rand_herm(g, d, rng.random() < 0.5)
+        ev = np.linalg.eigvalsh(A)
+        w0 = rng.choice([0.25, 0.5, 0.75])
+        wsz = rng.choice([0.2, 0.4, 1.0])
+        k = rng.randint(1, 5)
+        c = ev[0] + w0 * (ev[-1] - ev[0])
+        lo_, hi_ = c - wsz * (ev[-1] - ev[0]) / 2, c + wsz * (ev[-1] - ev[0]) / 2
+        c2 = c + (ev[-1] - ev[0]) / 104729
+        near = np.sort(ev[np.argsort(np.abs(ev - c2))[:k]])
+        want = near[(near > lo_) & (near < hi_)]
+        bk = rng.choice(["scipy", "AUTO", "numpy"])
+        desc = {"call": "eigh_window", "d": d, "w_0": w0, "w_sz": wsz, "k": k, "backend": bk, "np_seed": ctx.seed + 1707, "iteration": it}
+        try:
+            lk, vk = qu.eigh_window(sp.csr_matrix(A), w0, k, w_sz=wsz, backend=bk)
+            lk, vk = np.asarray(lk), np.asarray(vk)
+            if bk == "numpy" and lk.size > k:
+                ctx.violation("eigh_window:dense:k_ignored", f"eigh_window returned {lk.size} eigenpairs for k={k}", desc)
+            elif lk.shape != want.shape or not np.allclose(lk, want, atol=1e-7 * max(1.0, float(np.abs(ev).max()))):
+                ctx.violation(f"options:eigh_window:{bk.lower()}", "sparse eigh_window differs from 'the k eigenvalues nearest the centre, cut to the window'",
+                              {**desc, "got": lk.tolist(), "want": want.tolist()})
+            elif lk.size:
+                _vec_checks(ctx, f"options:eigh_window:{bk.lower()}:vectors", desc, A, lk, vk, True, tol=1e-7)
+        except Exception as e:  # noqa: BLE001
+            ctx.violation(f"options:eigh_window:{bk.lower()}:raised", f"raised {type(e).__name__}: {str(e)[:120]}", desc)
+
+
 MODULES = ["C17/Model.vo", "C17/SortProofs.vo", "C17/KeyProofs.vo", "C17/SelectProofs.vo", "C17/WindowProofs.vo",
            "C17/BlocksProofs.vo", "C17/Check.vo", "C17/CheckProofs.vo", "C17/Props.v"]
 
@@ -1379,6 +1655,19 @@ def _reproduce(entry):
             out = np.asarray(qu.eigvalsh(A, k=2, backend="lobpcg", v0=np.ones(30), maxiter=400, tol=1e-10))
             if not np.allclose(out, np.linalg.eigvalsh(A)[:2], atol=1e-5):
                 return "lobpcg eigenvalues differ from the dense reference"
+        elif kind == "projector":
+            g = np.random.default_rng(11)
+            d, m, k = 24, 10, 3
+            A = _rand_herm(g, d, entry.get("A_complex", False))
+            P = _rand_iso(g, d, m, entry.get("P_complex", True))
+            ref = np.linalg.eigvalsh(P.conj().T @ A @ P)[:k]
+            opts = {"maxiter": 400, "tol": 1e-10} if entry.get("backend") == "lobpcg" else {}
+            lk, vk = qu.eigh(A, k=k, P=P, backend=entry.get("backend"), **opts)
+            lk, vk = np.asarray(lk), np.asarray(vk)
+            if not np.allclose(lk, ref, atol=1e-5):
+                return "eigenvalues in the subspace of a (complex) isometry P differ from those of P^dag A P"
+            if np.abs(vk.conj().T @ vk - np.eye(k)).max() > 1e-4 or np.abs(P.conj().T @ (A @ vk) - (P.conj().T @ vk) * lk[None, :]).max() > 1e-3:
+                return "vectors returned with P= are not orthonormal eigenvectors of the projected operator"
         else:
             return None
     except Exception as e:  # noqa: BLE001
@@ -1466,7 +1755,7 @@ def run(ctx):
         check_props(ctx)
     _timed(ctx, corpus_stage)
     _correspondence(ctx, [f for f in (sort_inds_stream, eigs_stream, full_stream, window_stream, blocks_stream, backend_stream) if want(f)])
-    for fn in (partial_oracle, svd_oracle, matfun_oracle, autoblock_oracle, spectral_oracle):
+    for fn in (partial_oracle, projector_oracle, options_oracle, svd_oracle, matfun_oracle, autoblock_oracle, spectral_oracle):
         if want(fn):
             _timed(ctx, fn)
 
